@@ -60,8 +60,18 @@ CHECKS = {
  "C19": dict(tech="runtime monitoring: the built esolver binary (ASan and plain) run on generated and mutated files x options; solution/basis files parsed and judged by the exact certificate oracle and the certified reference",
              text="exit status, status line, listed values and -b/-B round trip are correct for the explored files/options; malformed files never crash it",
              note="zeros are implied for unlisted names; rows must be named in the input"),
+ "C11": dict(tech="runtime monitoring: coverage-guided fuzzing (libFuzzer, clang ASan+UBSan) of the LP/MPS/basis readers with grammar-derived seeds and structured mutants, post-read consistency oracle, exit() interposition; plus the same corpus as real plain/.gz/.bz2 files through the gcc-sanitized driver",
+             text="no crash, hang, exit or inconsistent result on ~100k fuzz executions + 1.5k file cases per quick run (6M+ in thorough)",
+             note="exponents of more than 4 digits are skipped as the statement says; reach = what the fuzzer generates"),
+ "C15": dict(tech="runtime monitoring: metamorphic testing (10 equivalence transformations, random compositions) of planted LPs with 40-130 rows (100-400 in thorough, beyond the reference solver) under sanitizers, with the exact certificate oracle on every OPTIMAL",
+             text="equivalent formulations gave identical statuses and exactly corresponding optimal values in all explored groups",
+             note="value correspondence is an exact affine map tracked with the transformations"),
+ "C17": dict(tech="runtime monitoring: ASan+UBSan (GMP on malloc) over a stratified corpus of all other checks' scripts; valgrind memcheck --track-origins on the slab-allocator build; 7-way re-execution with perturbed allocator contents / ASLR / environment and byte comparison of transcripts and written files",
+             text="no sanitizer or memcheck report and byte-identical results on the explored corpus",
+             note="MemorySanitizer is not used (uninstrumented libgmp/libz/libbz2); memcheck + perturbation stand in for it"),
 }
 ENGINES = [
+ dict(name="fuzz_read", path="harness/fuzz_read.c", serves_properties=["C11"], kind_free_text="libFuzzer target for the LP/MPS/basis readers (clang -fsanitize=fuzzer,address,undefined)"),
  dict(name="ludrive", path="harness/ludrive.c", serves_properties=["C13"], kind_free_text="component driver for the sparse LU code (factor_mpq.h): factor, ftran, btran, column replacement"),
  dict(name="qsdrive", path="harness/qsdrive.c", serves_properties=sorted(CHECKS), kind_free_text="script interpreter over the public API writing a before/after event log; built per flavour (gcc ASan+UBSan, plain) from /repo's working tree by build/mkbuild.py"),
  dict(name="oracles", path="vlib/", serves_properties=sorted(CHECKS), kind_free_text="exact Python oracles: reference LP store, certificate checkers, self-certifying reference simplex, generators, process pool / triage / known-findings / evidence"),
